@@ -10,6 +10,8 @@ RULE = ("TLC explores FibreIrq.tla exhaustively: the main context steps through 
         "as a schedule on the real fibre.c + messageq.c under vrt and validated by TLC against TraceFibreIrq.tla (operation, "
         "results, run queue, timer queue and both message queues after every step); seeded random schedules with up to 11 "
         "interrupt calls (enough to fill the 8-deep atomic run queue) likewise. A case = one schedule; distinct by hash.")
+RULE += (" Liveness: under FairSpec TLC checks accepted ~> dispatched and sent ~> seen with the main loop running for ever "
+         "(and their violation for a fast path that ignores the atomic queue).")
 ASSUMPTIONS = ["fibre bodies are the fixed scenario of the property: an event-handling fibre, a yielding fibre, a sleeping fibre",
                "events are delivered in claim order (messageq semantics, C04); with nested handlers this is the order in "
                "which the handlers claimed, not the order in which their sends completed",
@@ -87,5 +89,21 @@ def run_hb(run, hb_check, weaken_sites):
     weaken_sites(run, "fibre", trs[0], max_lines=2500)
 
 
+def liveness(run):
+    """FairSpec (weak fairness on the main loop and on started handlers, main loop running for ever):
+    accepted wake-up ~> dispatch, completed send ~> seen; and the violation when the fast path ignores the atomic queue"""
+    for c in (["live_a", "live_f"] if not run.thorough() else ["live_a", "live_at", "live_f", "live_d"]):
+        res = require_ok(run, tlc(run, "FibreIrq_mc", "FibreIrq_%s.cfg" % c, tag=c, coverage=False, timeout=1500), c)
+        if res["violated"]:
+            raise Infra("FibreIrq liveness configuration %s violates %s" % (c, res["violated"]))
+        account_mc(run, res)
+    res = tlc(run, "FibreIrq_mc", "FibreIrq_live_f_broken.cfg", tag="live-broken", coverage=False)
+    run.tlc_runs[-1]["expected_violation"] = "temporal"
+    if res["violated"] != "temporal":
+        raise Infra("vacuity: a fast path that ignores the atomic queue did not violate AcceptedLeadsToDispatch (%s)" % res["violated"])
+    run.notes.append("vacuity: FibreIrq_live_f_broken.cfg violates the liveness properties, as it must")
+
+
 def run(run):
+    liveness(run)
     run_irq(run)
